@@ -5,14 +5,13 @@ from core.wire import atom, line, parse_reply, Atom
 ID = "C46"
 LEAN_TARGETS = ["TornadoModel.C46.Props"]
 _P = "TornadoModel.C46."
-THEOREMS_FULL = [_P + n for n in [
+THEOREMS = [_P + n for n in [
     "natDigits_all_digits", "digitsVal_natDigits", "groups_flatten", "groups_shape",
     "friendly_reads_back", "friendly_well_grouped", "friendly_ok", "friendly_non_english_is_str",
     "roundHalfEven_nearest", "no_future_as_past", "relative_number_is_nearest", "format_date_ok",
     "relative_only_same_day", "relative_unit_thresholds", "near_future_clamped_to_now",
     "friendly_old_code_refuted",
 ]]
-THEOREMS = [_P + "stub"]
 TRUSTED = [
     "CPython str(int), str slicing/join, datetime/timedelta arithmetic and normalisation (days/seconds by floor division), "
     "round() half-to-even on seconds/60.0 and seconds/3600.0, '%d'/'%02d' formatting — as modelled in C46/Model.lean",
